@@ -98,7 +98,11 @@ GhostReq(gh, t, rt, rd, w2, backoff, cap) ==
       out2 == [k \in {x \in keys : single(x)} |->
                  IF k \in DOMAIN gh.out /\ frequent THEN gh.out[k] ELSE [since |-> t, num |-> gh.w[k], den |-> S1]]
       othersCapped(k) == \A x \in keys \ {k} : GrowFactor * gh.w[x] > cap \/ GrowFactor * w2[x] > cap
-      conv2 == IF nontriv THEN 0 ELSE IF adj THEN gh.conv + 1 ELSE gh.conv
+      (* an adjustment is due at a request when all meters are ready and more than a back-off interval has passed *)
+      (* since the weights last changed; while ratings do not differ each one that is due counts, whether or not  *)
+      (* the weights moved - a rebalancer that stops short of the configured proportions does not "return"        *)
+      due == allReady /\ Cardinality(keys) >= 2 /\ (gh.lastAdj = NoTime \/ t - gh.lastAdj > backoff)
+      conv2 == IF nontriv THEN 0 ELSE IF adj \/ due THEN gh.conv + 1 ELSE gh.conv
       viol ==
         {c \in {"C10.WeightWithinBounds", "C10.OncePerBackoff", "C10.OutlierShareNeverGrows", "C10.OutlierLosesShare",
                 "C10.ConvergesWithinSix", "C10.NoAdjustmentUnlessReady"} :
